@@ -130,8 +130,13 @@ def variance_stokes_constant(st, sections, acquisitiontime, reshape_residuals=Tr
         return var_I, resid
 
     else:
-        ix_resid = ufunc_per_section_helper(
-            sections=sections, x_coords=st.x, calc_per="all"
+        # the residuals are concatenated stretch by stretch, in the order of
+        # the sections dictionary
+        ix_resid_dict = ufunc_per_section_helper(
+            sections=sections, x_coords=st.x, calc_per="stretch"
+        )
+        ix_resid = np.concatenate(
+            [ixi for ix_list in ix_resid_dict.values() for ixi in ix_list]
         )
 
         resid_sorted = np.full(shape=st.shape, fill_value=np.nan)
@@ -321,8 +326,13 @@ def variance_stokes_exponential(
         # _resid_x = self.ufunc_per_section(
         #     sections=sections, label="x", calc_per="all"
         # )
-        _resid_x = ufunc_per_section_helper(
-            sections=sections, dataarray=st.coords["x"], calc_per="all"
+        # in the same order as the residuals: stretch by stretch
+        _resid_x = np.concatenate(
+            [
+                st.coords["x"].sel(x=stretch).data
+                for stretches in sections.values()
+                for stretch in stretches
+            ]
         )
         isort = np.argsort(_resid_x)
         resid_x = _resid_x[isort]  # get indices from ufunc directly
@@ -461,8 +471,12 @@ def variance_stokes_linear(
         acquisitiontime=acquisitiontime,
         reshape_residuals=False,
     )
-    ix_sec = ufunc_per_section_helper(
-        sections=sections, x_coords=st.coords["x"], calc_per="all"
+    # in the order of the residuals: stretch by stretch
+    ix_sec_dict = ufunc_per_section_helper(
+        sections=sections, x_coords=st.coords["x"], calc_per="stretch"
+    )
+    ix_sec = np.concatenate(
+        [ixi for ix_list in ix_sec_dict.values() for ixi in ix_list]
     )
 
     st = st.isel(x=ix_sec).values.ravel()
